@@ -59,8 +59,12 @@ def declare(w):
     w.add(Contract(f"{GB}:Channel.send", {"self": REF("Channel"), "item": ANY}, modifies=lambda a, h: [("Channel", a.self, "$sent")],
                    cases=[Case("ok", post=lambda a, h, h2, r: [sent(h2, a.self) == z3.Concat(sent(h, a.self), z3.Unit(a.item))]),
                           Case("closed-or-broken", "raise", "OSError", post=lambda a, h, h2, e: [sent(h2, a.self) == sent(h, a.self)])], trusted=True, note="C02/C03"))
-    w.add(Contract(f"{GB}:Channel.receive", {"self": REF("Channel"), "timeout": OPT(INT)}, defaults={"timeout": None}, modifies=lambda a, h: [("Channel", a.self, "$inbox")],
-                   cases=[Case("item", restype=ANY), Case("eof", "raise", "EOFError"), Case("remote-error", "raise", "RemoteError")], trusted=True,
+    s.declare("Channel", "$nrecv", INT, ghost=True)     # how many items this side has taken out of the channel
+    nrecv = lambda h, c: h("Channel", c, "$nrecv")
+    w.add(Contract(f"{GB}:Channel.receive", {"self": REF("Channel"), "timeout": OPT(INT)}, defaults={"timeout": None}, modifies=lambda a, h: [("Channel", a.self, "$inbox"), ("Channel", a.self, "$nrecv")],
+                   cases=[Case("item", restype=ANY, post=lambda a, h, h2, r: [nrecv(h2, a.self) == nrecv(h, a.self) + 1]),
+                          Case("eof", "raise", "EOFError", post=lambda a, h, h2, e: [nrecv(h2, a.self) == nrecv(h, a.self)]),
+                          Case("remote-error", "raise", "RemoteError", post=lambda a, h, h2, e: [nrecv(h2, a.self) == nrecv(h, a.self)])], trusted=True,
                    note="C02/C03; without a timeout it blocks until the peer answers (unbounded)"))
 
     # ---- the IO contract, with ProxyIO's view: the bytes the forwarder wrote to the master file ---------------------------
@@ -88,14 +92,18 @@ def declare(w):
     def ctl_post(code):
         def post(a, h, h2, r):
             cc = h("ProxyIO", a.self, "controlchan")
-            return [sent(h2, cc) == z3.Concat(sent(h, cc), z3.Unit(i2u(z3.IntVal(code))))]     # exactly one control request with the matching code
+            return [sent(h2, cc) == z3.Concat(sent(h, cc), z3.Unit(i2u(z3.IntVal(code)))),     # exactly one control request with the matching code
+                    # ... and its answer is taken out: the forwarder answers every request, so an answer left behind would be handed to the NEXT request
+                    # (a wait() after close_write() would get close_write's None while the process still runs)
+                    nrecv(h2, cc) == nrecv(h, cc) + 1]
         return post
 
-    CTLMOD = lambda a, h: [("Channel", h("ProxyIO", a.self, "controlchan"), "$sent"), ("Channel", h("ProxyIO", a.self, "controlchan"), "$inbox")]
+    CTLMOD = lambda a, h: [("Channel", h("ProxyIO", a.self, "controlchan"), f) for f in ("$sent", "$inbox", "$nrecv")]
     HASCTL = lambda a, h: [("has-control-channel", h("ProxyIO", a.self, "controlchan") != 0)]
     failing = [Case("connection-lost", "raise", "EOFError"), Case("via-gateway-broken", "raise", "OSError"), Case("via-error", "raise", "RemoteError")]
     w.add(Contract(f"{GIO}:ProxyIO._controll", {"self": REF("ProxyIO"), "event": INT}, requires=HASCTL, modifies=CTLMOD,
-                   cases=[Case("ok", restype=ANY, post=lambda a, h, h2, r: [sent(h2, h("ProxyIO", a.self, "controlchan")) == z3.Concat(sent(h, h("ProxyIO", a.self, "controlchan")), z3.Unit(i2u(a.event)))])] + failing,
+                   cases=[Case("ok", restype=ANY, post=lambda a, h, h2, r: [sent(h2, h("ProxyIO", a.self, "controlchan")) == z3.Concat(sent(h, h("ProxyIO", a.self, "controlchan")), z3.Unit(i2u(a.event))),
+                                                                            nrecv(h2, h("ProxyIO", a.self, "controlchan")) == nrecv(h, h("ProxyIO", a.self, "controlchan")) + 1])] + failing,
                    props=["C16", "C05"]))
     w.add(Contract(f"{GIO}:ProxyIO.close_write", {"self": REF("ProxyIO")}, requires=HASCTL, modifies=CTLMOD, cases=[Case("ok", post=ctl_post(RIO_CLOSE_WRITE))] + failing, props=["C16"]))
     w.add(Contract(f"{GIO}:ProxyIO.kill", {"self": REF("ProxyIO")}, requires=HASCTL, modifies=CTLMOD, cases=[Case("ok", post=ctl_post(RIO_KILL))] + failing, props=["C16", "C05"]))
@@ -281,7 +289,7 @@ def declare_forward_loop(w):
 
     w.add(Contract(f"{GIO}:serve_proxy_io", {"proxy_channelX": REF("Channel")},
                    requires=lambda a, h: [("channel", a.proxy_channelX != 0), ("gateway", z3.And(h("Channel", a.proxy_channelX, "gateway") != 0, em(a, h) != 0))],
-                   modifies=lambda a, h: [("Channel", None, "$sent"), ("Channel", None, "$inbox"), ("Channel", None, "$callback"), ("Channel", a.proxy_channelX, "$forwarded"), ("IO", None, "unread"), ("IO", None, "$tail"),
+                   modifies=lambda a, h: [("Channel", None, "$sent"), ("Channel", None, "$inbox"), ("Channel", None, "$nrecv"), ("Channel", None, "$callback"), ("Channel", a.proxy_channelX, "$forwarded"), ("IO", None, "unread"), ("IO", None, "$tail"),
                                           ("ExecModel", em(a, h), "$sub"), ("Message", None, "msgcode"), ("Message", None, "channelid"), ("Message", None, "data")],
                    cases=[Case("sub-ended", post=sp_ended), Case("connection-lost", "raise", "EOFError", post=sp_prefix), Case("cannot-start-or-write", "raise", "OSError", post=sp_prefix),
                           Case("via-broken", "raise", "RemoteError", post=sp_prefix), Case("no-bootstrap-byte", "raise", "AssertionError", post=sp_prefix)], props=["C16"], allocates=True))
